@@ -98,7 +98,7 @@ func c08Done(c unbound.Cfg, lifo bool) []string {
 func c08Scenarios(tier string) []e1lib.Scenario {
 	maxS, maxCap := 3, 2
 	if tier == "thorough" {
-		maxS, maxCap = 4, 3
+		maxS, maxCap = 5, 3
 	}
 	var out []e1lib.Scenario
 	add := func(c unbound.Cfg, lifo bool) {
